@@ -932,6 +932,12 @@ func c14exec(c *h.Ctx, cs *h.Case) {
 		case len(tk) == 4 && tk[0] == "c14" && tk[1] == "crowd":
 			flush()
 			cs.Impl[i] = e.doCrowd(tk)
+		case len(tk) == 9 && tk[0] == "c14" && tk[1] == "getlist":
+			flush()
+			cs.Impl[i] = e.doGetList(tk)
+		case len(tk) == 4 && tk[0] == "c14" && tk[1] == "parnobody":
+			flush()
+			cs.Impl[i] = e.doParNobody(tk)
 		case len(tk) == 2 && tk[0] == "c14" && tk[1] == "barrier":
 			flush()
 			cs.Impl[i] = "ok"
@@ -1140,6 +1146,23 @@ func c14oracle(cs *h.Case) {
 				}
 			} else if obs != "ok pair" {
 				cs.Fail("c14:wrong-reply:parallel", fmt.Sprintf("request %d %q: the reply handed back is not the reply of the node handed back: %s", i, op, obs))
+			}
+			continue
+		}
+		if len(tk) == 9 && tk[1] == "getlist" {
+			// whom a parallel request asks: no node twice, only nodes of the roster, no ignored node, a
+			// routine for them (checked by the op itself on the list GetList hands out)
+			classes["getlist"] = true
+			if strings.Contains(obs, " !") || strings.HasPrefix(obs, "panic") {
+				cs.Fail("c14:wrong-nodes-asked:parallel", fmt.Sprintf("op %d %q: %s", i, op, obs))
+			}
+			continue
+		}
+		if len(tk) == 4 && tk[1] == "parnobody" {
+			// nobody to ask: an error for the caller, not the end of its process
+			classes["parnobody:"+strings.Fields(obs + " -")[0]] = true
+			if obs != "err" {
+				cs.Fail("c14:error-not-reported:parallel", fmt.Sprintf("op %d %q: a parallel request with nobody to ask must end with an error, got %q", i, op, obs))
 			}
 			continue
 		}
@@ -1783,8 +1806,64 @@ func c14genCases(c *h.Ctx, yield func(*h.Case)) {
 		emit(cs)
 	}
 
+	{
+		// SendProtobufParallel with nobody to ask (no node, every node ignored): an error, not errs[0]
+		// of an empty list (fixed in /repo 2f7be2f); and GetList at its corners
+		cs := &h.Case{Class: "corpus:parallel-nobody-to-ask"}
+		cs.Ops = append(cs.Ops, "c14 parnobody ignoreall 3", "c14 parnobody empty 0", "c14 parnobody nilroster 0", "c14 parnobody ignoreall 1",
+			"c14 getlist 0 0 0 0 0 0 nil", "c14 getlist 0 1 1 1 1 0 opt", "c14 getlist 1 0 0 0 1 0 opt", "c14 getlist 1 0 0 0 1 1 opt",
+			"c14 getlist 6 2 3 2 1 16 opt", "c14 getlist 6 0 0 0 1 0 opt", "c14 getlist 6 -1 -1 -1 1 0 opt", "c14 getlist 6 9 9 9 1 63 opt",
+			"c14 getlist 6 3 6 6 1 0 opt", "c14 getlist 6 3 5 5 1 33 opt", "c14 getlist 7 0 0 0 0 0 nil", "c14 getlist 7 1 2 3 0 8 opt",
+			"c14 getlist 24 0 0 23 1 8388608 opt", "c14 getlist 5 0 0 0 0 31 opt")
+		emit(cs)
+	}
+
 	n := c.Pick(140, 2500)
 	for it := 0; it < n && !c.TooManyFails(); it++ {
+		if it%4 == 1 {
+			// whom a parallel request asks: rosters of 0-24 nodes, options of every size and sign, ignored
+			// nodes, fixed and shuffled order
+			cs := &h.Case{Class: "getlist"}
+			for i, m := 0, 8+r.Intn(16); i < m; i++ {
+				nn := r.Intn(25)
+				if r.Intn(3) == 0 {
+					nn = r.Intn(5)
+				}
+				num := func() int {
+					switch r.Intn(5) {
+					case 0:
+						return 0
+					case 1:
+						return -1 - r.Intn(3)
+					case 2:
+						return nn + r.Intn(3) - 1
+					}
+					return r.Intn(nn + 2)
+				}
+				mask := 0
+				switch r.Intn(4) {
+				case 0:
+					mask = r.Intn(1 << uint(nn))
+				case 1:
+					mask = 1<<uint(nn) - 1 - r.Intn(2) // all of them, or all but the first
+				case 2:
+					mask = 1 << uint(r.Intn(nn+1)) >> 1
+				}
+				if mask < 0 {
+					mask = 0
+				}
+				o := "opt"
+				if r.Intn(8) == 0 {
+					o = "nil"
+				}
+				c.Count(fmt.Sprintf("getlist:n<=%d", (nn/8+1)*8))
+				cs.Ops = append(cs.Ops, fmt.Sprintf("c14 getlist %d %d %d %d %d %d %s", nn, num(), num(), num(), r.Intn(2), mask, o))
+			}
+			if r.Intn(3) == 0 {
+				cs.Ops = append(cs.Ops, fmt.Sprintf("c14 parnobody ignoreall %d", 1+r.Intn(5)))
+			}
+			emit(cs)
+		}
 		if it%2 == 0 {
 			// both APIs of one message type at once, from several threads
 			cs := &h.Case{Class: "both-apis"}
